@@ -119,6 +119,12 @@ where
     let shard = self.shared.store.get_shard(&key_for_event);
 
     self.shard_guard.insert(self.key, new_cache_entry);
+    // account for the entry before the shard lock is released (see Cache::insert)
+    self
+      .shared
+      .metrics
+      .current_cost
+      .fetch_add(cost, std::sync::atomic::Ordering::Relaxed);
     drop(self.shard_guard);
 
     let _ = shard
@@ -135,11 +141,6 @@ where
       .metrics
       .keys_admitted
       .fetch_add(1, std::sync::atomic::Ordering::Relaxed);
-    self
-      .shared
-      .metrics
-      .current_cost
-      .fetch_add(cost, std::sync::atomic::Ordering::Relaxed);
     self
       .shared
       .metrics
